@@ -17,7 +17,7 @@ OUTSIDE = ["operation histories longer than 3 (quick) / 4-5 (thorough: every seq
 BOUNDS = {"quick": {"rows": 3, "id_domains": "see assumptions"}, "thorough": {"rows": 3, "pairs_of_operations": True}}
 EXPECTED_EXCEPTIONS = ()
 OPTS = {"max_paths": 6000}
-OPTS_THOROUGH = {'max_paths': 40000, 'budget_s': 1500}
+OPTS_THOROUGH = {'max_paths': 40000, 'budget_s': 1200}
 IDX = {"default": None, "gaps": [7, 2, 5, 11, 3, 8]}
 
 
